@@ -663,6 +663,7 @@ func c01Cross(chk *fw.Check) int {
 				l := world.Issue(p.CA, world.CertOpt{CN: "c01 m other", Serial: big.NewInt(int64(7000 + i)), KeyKind: "ec", KeyIdx: 5, CDP: []string{u}})
 				w.Handshake(world.Chain(l, p.CA, p.Root))
 				vsched.Drain()
+				vsched.Advance(time.Second) // the clients arrive one after the other
 			}
 			if v := w.Handshake(world.Chain(x, p.CA, p.Root)); !v.Rejected() {
 				chk.Violation("C01|listed-accepted|history=140-distribution-points-seen-after-the-configured-list|"+be(disk),
